@@ -127,4 +127,36 @@ object (replayed against the real code by the harness as `apply - 0000 -`). Roun
 `empty_delta_panics` here, true of the code before a28439df2. -/
 theorem empty_delta_ok : applyDelta [] (encDelta [] []) = .ok [] := by decide +kernel
 
+/-! ### round 3: out-of-pack bases (`ResolvedBase::OutOfPack`, thin packs) -/
+
+/-- The same for a ref-delta whose base is handed in by the `resolve` callback: any delta git can
+produce resolves to exactly its target. -/
+theorem thin_delta_apply_correct (base : Bytes) (instrs : List Instr) (hwf : ∀ i ∈ instrs, i.Wf base)
+    (hb : base.length < u64) (ht : (sem base instrs).length < u64) :
+    applyDeltaThin base (encDelta base instrs) = .ok (sem base instrs) :=
+  applyDeltaThin_enc base instrs hwf hb ht
+
+/-- … and for ANY delta bytes that do not declare a larger base than they have, resolving panics
+iff the interpreter rejects the instructions for the declared prefix of the base and the declared
+result size. In particular the sibling branch of the 'rescue' copy (`delta_range.start > end`:
+an out-of-pack base larger than twice every declared size) is no source of panics any more — it
+ALWAYS panicked before the /repo fix recorded in known-findings.txt (witnesses below, replayed by
+the harness as `applyx …`). -/
+theorem thin_resolve_panics_iff (base delta : Bytes) (bs o1 rs o2 : Nat)
+    (h1 : decodeHeaderSize delta = .ok (bs, o1)) (h2 : decodeHeaderSize (delta.drop o1) = .ok (rs, o2))
+    (hbs : bs ≤ base.length) :
+    applyDeltaThin base delta = .panic ↔ apply (base.take bs) rs (delta.drop (o1 + o2)) = none := by
+  unfold applyDeltaThin
+  rw [h1]
+  simp only
+  rw [h2]
+  simp only
+  rw [if_neg (by omega)]
+  cases apply (base.take bs) rs (delta.drop (o1 + o2)) <;> simp
+
+-- the formerly panicking inputs: an 8-byte base under a delta declaring 2 (8 > 2 * max 2 2), and a
+-- base of 5 under sizes 2 and 1; the declared prefix of the base is what gets read
+example : applyDeltaThin [97, 98, 99, 100, 101, 102, 103, 104] [2, 2, 0x90, 2] = .ok [97, 98] := by decide +kernel
+example : applyDeltaThin [97, 97, 97, 97, 97] [2, 1, 1, 255] = .ok [255] := by decide +kernel
+
 end GixModel.Props.C07
